@@ -16,6 +16,8 @@ import ast
 from ..astutil import call_name, calls, dotted, names_in, param_names, stmts, walk_local
 from ..cfg import CFG
 from ..core import AnalysisError, Mutant
+from .. import facts
+from ..exprnorm import same_expr, spec
 
 EXPLANATION = (
     "For every subscript of the cell arrays in celllist.pyx (lowered, with C declarations): the "
@@ -38,28 +40,16 @@ def run(ctx):
     fa = s.func("CellList._find_adjacent_atoms")
     cell_views = {"cells", "cell_length"}
     # ---------------- R1 guarded cell accesses --------------------------------
-    parents = {}
-    for p in ast.walk(fa):
-        for ch in ast.iter_child_nodes(p):
-            parents[id(ch)] = p
     n_acc = 0
     for n in walk_local(fa):
         if isinstance(n, ast.Subscript) and isinstance(n.value, ast.Name) and n.value.id in cell_views \
                 and isinstance(n.slice, ast.Tuple):
             n_acc += 1
+            known = facts.facts_at(fa, n)
             for axis, ix in enumerate(n.slice.elts):
                 ctx.need(isinstance(ix, ast.Name), "cell index is a plain variable")
-                lo = hi = False
-                x = n
-                while id(x) in parents:
-                    x = parents[id(x)]
-                    if isinstance(x, ast.If):
-                        for c in ast.walk(x.test):
-                            if isinstance(c, ast.Compare) and isinstance(c.left, ast.Name) and c.left.id == ix.id:
-                                if isinstance(c.ops[0], ast.GtE) and isinstance(c.comparators[0], ast.Constant) and c.comparators[0].value == 0:
-                                    lo = True
-                                if isinstance(c.ops[0], ast.Lt) and ast.unparse(c.comparators[0]) == f"cells.shape[{axis}]":
-                                    hi = True
+                lo = spec(f"{ix.id} >= 0") in known
+                hi = any(spec(f"{ix.id} < {v}.shape[{axis}]") in known for v in sorted(cell_views))
                 ctx.ob("R1.cell-access-guarded", CL, "CellList._find_adjacent_atoms",
                        f"{n.value.id}[...] axis {axis}: 0 <= {ix.id} < cells.shape[{axis}]", lo and hi,
                        f"`{ix.id}` indexes axis {axis} of `{n.value.id}` under boundscheck(False) but is not guarded by "
@@ -94,12 +84,16 @@ def run(ctx):
     cc = s.func("_check_coord")
     ctx.ob("R1.finite-before-fill", CL, "_check_coord", "np.isfinite(coord).all() -> raise",
            "if not np.isfinite(coord).all():" in ast.unparse(cc), "non-finite coordinates give an undefined cell index", cc.lineno)
-    # selection length
-    sel_chk = [n for n in g.nodes if n.kind == "test" and "self._selection.shape[0] != self._orig_length" in ast.unparse(n.ast.test)
-               and any(isinstance(b, ast.Raise) for b in n.ast.body)]
+    # selection length: from the statement that stores the caller's mask, every path to the fill loop passes a refusing
+    # length comparison with the atom count
+    stores = [n for n in g.nodes if n.kind == "stmt" and isinstance(n.ast, ast.Assign)
+              and any(isinstance(t_, ast.Attribute) and t_.attr == "_selection" for t_ in n.ast.targets)]
+    ctx.need(stores, "assignment of self._selection")
+    sel_chk = [n for n in g.nodes if n.kind == "test" and any(isinstance(b, ast.Raise) for b in n.ast.body)
+               and any(same_expr(c_, "self._selection.shape[0] != self._orig_length") or same_expr(c_, "len(self._selection) != self._orig_length")
+                       for c_ in ast.walk(n.ast.test) if isinstance(c_, ast.Compare))]
     ctx.ob("R3.selection-length", CL, "CellList.__cinit__", "selection.shape[0] != orig_length -> raise before the fill loop",
-           bool(sel_chk) and g.path(sel_chk[0].id, loops[0].id) is not None
-           and g.path(g.entry.id, loops[0].id, blocked={sel_chk[0].id} | {n.id for n in g.nodes if n.kind == "stmt" and ast.unparse(n.ast) == "self._has_selection = False"}) is None,
+           bool(sel_chk) and all(g.path(st_.id, loops[0].id, blocked={c_.id for c_ in sel_chk}) is None for st_ in stores),
            "the selection mask is read under boundscheck(False): its length must be compared with the atom count first",
            ci.lineno)
     # query points
